@@ -865,13 +865,17 @@ def pncexpr(expr, ifile, verbose=0):
     dimt = tmpvar.dimensions
     # Add all used constants as properties
     # of the output file
+    filevars = dict(vardict)
+    for fname in dir(userfuncs):
+        vardict[fname] = getattr(userfuncs, fname)
+    exec('from scipy.constants import *', None, vardict)
+    # a variable of the file named like a helper function or a physical
+    # constant (g, c, h, k, R, e, pi, hour, bar, ...) is the file's variable
+    vardict.update(filevars)
     vardict['ifile'] = ifile
     vardict['infile'] = ifile
     vardict['np'] = np
     vardict['datetime'] = datetime
-    for fname in dir(userfuncs):
-        vardict[fname] = getattr(userfuncs, fname)
-    exec('from scipy.constants import *', None, vardict)
     for k in ifile.ncattrs():
         if k not in vardict:
             vardict[k] = getattr(ifile, k)
